@@ -42,7 +42,10 @@ def abstraction(facts, b, with_closures=True, _seen=None):
         c = t["callee"]
         if "path" not in c:
             continue
-        out[(norm(c["path"]), norm(c.get("self_ty")))] += 1
+        st = norm(c.get("self_ty"))
+        if st:
+            st = re.sub(r"^&(mut )?", "", st)   # by-ref vs by-value receivers are the same member
+        out[(norm(c["path"]), st)] += 1
     if with_closures:
         for bid, blk in b.blocks.items():
             for s in blk["stmts"]:
